@@ -303,6 +303,7 @@ def run(ctx):
     for key, lst in sorted(agg.items()):
         ctx.violation(key, "switching %s only: unexplained difference in %s: %s  [%d pair(s), e.g. %s]" % (
             key.split("/")[1], key.split("/")[3], lst[0][1][:300], len(lst), lst[0][0]), {"pairs": [p for p, _ in lst][:40]})
+    ctx.require(len(jobs) >= 10 and sum(tot.values()) >= 100 * len(jobs), "%d pairs, %d explained differences" % (len(jobs), sum(tot.values())))
     ctx.extra["pairs"] = len(jobs)
     ctx.extra["builds"] = len(cfgs)
     ctx.extra["explained_differences"] = dict(tot)
